@@ -480,7 +480,10 @@ def main(argv):
                  [(b"klein", b"House"), (b"haus", b"House"), (b"haus", b"Little")],
                  [(b"Der", b"House"), (b"klein", b"little"), (b"klein", b"little")],
                  # lower-casing changes the UTF-8 length: U+0130 (2 bytes -> i + U+0307, 3 bytes), U+212A Kelvin sign (3 -> 1)
-                 [(b"Der", b"The"), (b"stadt", b"\xc4\xb0stanbul"), (b"grad", b"\xe2\x84\xaaelvin"), (b"stadt", b"\xc4\xb0STANBUL"), (b"k", b"\xe2\x84\xaa"), (b"stadt", b"\xc4\xb0stanbul")]]
+                 [(b"Der", b"The"), (b"stadt", b"\xc4\xb0stanbul"), (b"grad", b"\xe2\x84\xaaelvin"), (b"stadt", b"\xc4\xb0STANBUL"), (b"k", b"\xe2\x84\xaa"), (b"stadt", b"\xc4\xb0stanbul")],
+                 # words whose only capitals are non-ASCII (a scan for A-Z sees nothing to lower): \u00c9t\u00e9, \u00dc, \u0416
+                 [(b"Der", b"The"), (b"sommer", b"\xc3\x89T\xc3\x89"), (b"sommer", b"\xc3\x89T\xc3\x89"), (b"ue", b"\xc3\xbc"), (b"ue", b"\xc3\xbc"),
+                  (b"zh", b"\xd0\xb6"), (b"zh", b"\xd0\xb6"), (b"sommer", b"\xc3\x89t\xc3\xa9")]]
         al_b, src_b, tgt_b = b"", b"", b""
         expect = {}
         for n_, pairs2 in enumerate(sents):
@@ -516,17 +519,19 @@ def main(argv):
         if st == 0 and "apply_case" in tools:
             fm3, fal3 = os.path.join(SCRATCH, "m.model"), os.path.join(SCRATCH, "m.sym")
             open(fm3, "wb").write(so)
-            rt = [(b"Der", b"the"), (b"stadt", ulower(b"\xc4\xb0stanbul")), (b"grad", b"kelvin"), (b"k", b"k")]
+            rt = [(b"Der", b"the"), (b"stadt", ulower(b"\xc4\xb0stanbul")), (b"grad", b"kelvin"), (b"k", b"k"),
+                  # apply_case gets these target words with non-ASCII capitals only; their keys are those of the lower-case forms
+                  (b"sommer", b"\xc3\x89t\xc3\xa9"), (b"ue", b"\xc3\x9c"), (b"zh", b"\xd0\x96")]
             n3 = len(rt) + 1
             open(fs3, "wb").write(b"<s> " + b" ".join(x for x, _ in rt) + b"\n")
             open(ft3, "wb").write(b"<t> " + b" ".join(y for _, y in rt) + b"\n")
             open(fal3, "wb").write(b"0 ||| " + b" ".join(b"%d-%d" % (i, i) for i in range(n3)) + b"\n")
             st3, so3, se3 = run_tool([repo_bin("apply_case"), fal3, fs3, ft3, fm3], timeout=60)
-            want3 = b"<t> The \xc4\xb0stanbul \xe2\x84\xaaelvin \xe2\x84\xaa\n"
+            want3 = b"<t> The \xc4\xb0stanbul \xe2\x84\xaaelvin \xe2\x84\xaa \xc3\x89T\xc3\x89 \xc3\xbc \xd0\xb6\n"
             c.count(("case-roundtrip-unicode",), bucket="tool/case-roundtrip-length-changing-lowercase")
             c.cov["traces_validated_against_impl"] += 1
             if st3 != 0 or so3 != want3:
-                c.violation("tool/case-roundtrip: apply_case did not find train_case's entries for words whose lower-case form has a different UTF-8 length: output %r, expected %r (status %s)" % (so3, want3, st3),
+                c.violation("tool/case-roundtrip: apply_case did not find train_case's entries (words whose lower-case form has a different UTF-8 length / whose only capitals are non-ASCII): output %r, expected %r (status %s)" % (so3, want3, st3),
                             {"op": "train_case|apply_case", "kind": "roundtrip", "train_align": al_b.decode("latin1"), "train_source": src_b.decode("latin1"),
                              "train_target_hex": hexs(tgt_b), "model": so[:1500].decode("latin1"), "apply_stdout_hex": hexs(so3), "expected_hex": hexs(want3)})
 
@@ -535,19 +540,22 @@ def main(argv):
     # first alignment points share a source index, one-word lines all aligned 0-0, unsorted alignments, repeated indices)
     if "apply_case" in tools:
         known = {(b"World", b"welt"): b"Welt", (b"Peace", b"frieden"): b"Frieden", (b"House", b"haus"): b"Haus", (b"the", b"die"): b"Die",
-                 (b"Green", b"gruen"): b"Gruen", (b"x" * 9, b"lang"): b"LANG", (b"a", b"ein"): b"Ein"}
+                 (b"Green", b"gruen"): b"Gruen", (b"x" * 9, b"lang"): b"LANG", (b"a", b"ein"): b"Ein",
+                 (b"Summer", b"\xc3\xa9t\xc3\xa9"): b"\xc3\x89T\xc3\x89", (b"J", b"\xd0\xb6"): b"\xd0\xb6"}
         best = {murmur64a_py(low, murmur64a_py(src, 0)): cased for (src, low), cased in known.items()}
         fm = os.path.join(SCRATCH, "handmodel")
         open(fm, "wb").write(b"".join(b"%d\t%s 3\n" % (k, v) for k, v in best.items()))
         srcs = [b"World", b"Peace", b"House", b"the", b"Green", b"x" * 9, b"a", b"other"]
         lows = [b"welt", b"frieden", b"haus", b"die", b"gruen", b"lang", b"ein", b"sonst"]
+        srcs += [b"Summer", b"J"]
+        lows += [b"\xc3\x89t\xc3\xa9", b"\xd0\x96"]       # given with non-ASCII capitals only
 
         def apply_py(test):
             res = []
             for sw, tw, al in test:
                 tw = list(tw)
                 for a, b in al:
-                    k = murmur64a_py(tw[b].lower(), murmur64a_py(sw[a], 0))
+                    k = murmur64a_py(ulower(tw[b]), murmur64a_py(sw[a], 0))
                     if k in best:
                         tw[b] = best[k]
                 res.append(b" ".join(tw))
@@ -559,7 +567,7 @@ def main(argv):
             for j in (i, (i + 1) % len(srcs), (i + 3) % len(srcs)):
                 t0.append(([srcs[i]], [lows[j]], [(0, 0)]))
         tests.append(t0)
-        tests.append([([srcs[i % 8]], [lows[(i * 3) % 8]], [(0, 0)]) for i in range(40)])
+        tests.append([([srcs[i % len(srcs)]], [lows[(i * 3) % len(srcs)]], [(0, 0)]) for i in range(50)])
         # lines that end on the source index the next line starts with; unsorted and repeated alignment points
         for _ in range(6 if c.tier == "quick" else 60):
             t = []
